@@ -15,7 +15,6 @@ package main
 import (
 	"encoding/json"
 	"fmt"
-	"path/filepath"
 	"sort"
 	"strings"
 	"sync"
@@ -57,6 +56,12 @@ type c10RoundCfg struct {
 	ChurnEvents int    `json:"churn_events_per_session"`
 	Storms      int    `json:"membership_storms"`
 	Growth      int    `json:"max_extra_receivers_per_session"`
+	// Collide: the sessions of the round are created on a server whose join-code draws are dictated
+	// (c10ctl.go): the first draw(s) of every later session equal codes of sessions that are live.
+	Collide string `json:"joincode_collisions,omitempty"`
+	// Ctl / IdleMs: control-frame round (c10ctl.go)
+	Ctl    string `json:"control_frames,omitempty"`
+	IdleMs int    `json:"idle_ms,omitempty"`
 }
 
 type c10Payload struct {
@@ -173,6 +178,8 @@ type c10Conn struct {
 
 	DialStart  time.Duration
 	JoinedAt   time.Duration // receipt time of its peer_list (0 = never)
+	ListSid    string        // session_id of the peer_list the server greeted it with
+	ListPeers  []string      // peer ids named in that peer_list
 	ReplacedAt time.Duration // dial start of a later connection with the same id in the session (0 = never)
 	CloseStart time.Duration // when the harness began to close it (0 = not closed by the harness)
 	Zombie     atomic.Bool   // a later same-id connection was upgraded: the hub no longer routes to this one
@@ -295,6 +302,13 @@ func (rd *c10Round) dial(sess int, id, role, how string) *c10Conn {
 	}
 	if rec, ok := ws.WaitType(protocol.TypePeerList, c10JoinWait); ok {
 		c.JoinedAt = rec.T
+		c.ListSid = rec.Env.SessionID
+		var pl protocol.PeerList
+		if rec.Env.DecodePayload(&pl) == nil {
+			for _, p := range pl.Peers {
+				c.ListPeers = append(c.ListPeers, p.PeerID)
+			}
+		}
 	}
 	return c
 }
@@ -1011,7 +1025,7 @@ func c10RunRound(e *Env, cfg c10RoundCfg, agg *c10Agg) {
 	r := vk.NewRng(cfg.Seed)
 	rd := &c10Round{e: e, cfg: cfg, creditTimeout: map[[2]int]bool{}}
 	flags := []string{"--ws-msgs-per-sec", "0", "--ws-connects-per-min", "0", "--session-creates-per-min", "0", "--max-receivers-per-sender", "0"}
-	srv, err := vk.StartServ(filepath.Join(e.BinDir, "thruserv"), flags, filepath.Join(e.Work, fmt.Sprintf("c10-serv-%03d.log", cfg.Round)))
+	srv, plan, err := c10StartServ(e, cfg, flags)
 	if err != nil {
 		e.R.Inconcl(fmt.Sprintf("round %d: %v", cfg.Round, err))
 		return
@@ -1019,6 +1033,10 @@ func c10RunRound(e *Env, cfg c10RoundCfg, agg *c10Agg) {
 	rd.srv = srv
 	defer srv.Stop()
 	for s := 0; s < cfg.Sessions; s++ {
+		if !plan.before(rd, s) {
+			e.R.Inconcl(fmt.Sprintf("round %d: join-code plan file could not be written", cfg.Round))
+			return
+		}
 		rs, err := vk.CreateSessionRaw(srv.URL, "")
 		if err != nil || rs.Status != 201 || rs.JoinCode == "" || rs.SessionID == "" {
 			e.R.Inconcl(fmt.Sprintf("round %d: POST /session failed: %v status=%d body=%s", cfg.Round, err, rs.Status, rs.Body))
@@ -1078,6 +1096,7 @@ func c10RunRound(e *Env, cfg c10RoundCfg, agg *c10Agg) {
 	if !alive {
 		e.R.Violate("server-died", "thruserv exited during the round", cfg, map[string]any{"log_tail": srv.LogTail(3000)})
 	}
+	c10JudgeAdmission(rd, plan)
 	c10Judge(rd, agg)
 }
 
@@ -1506,7 +1525,7 @@ func c10Judge(rd *c10Round, agg *c10Agg) {
 
 func runC10(e *Env) {
 	r := vk.NewRng(e.Seed ^ vk.HashStr("c10"+e.Tier))
-	e.R.Rule = "one case = a round against the real thruserv (rate limits off): 2-4 sessions, 8-24 concurrent WebSocket connections, stable phases (fixed membership, <=100 in flight per recipient, markers) alternating with churn phases (join, leave, reconnect, duplicate peer id, duplicate host) while every connection sends addressed (same session / self / unknown id / id of another session), broadcast, spoofed from, spoofed session_id, malformed, incomplete and binary frames; an envelope counts when it was delivered and checked against the author's send log; distinct by (operation kind, addressee relation, from class, session_id class, phase kind), plus peer_not_found reports by (addressee relation, phase kind)"
+	e.R.Rule = "one case = a round against the real thruserv (rate limits off): 2-4 sessions, 8-24 concurrent WebSocket connections, stable phases (fixed membership, <=100 in flight per recipient, markers) alternating with churn phases (join, leave, reconnect, duplicate peer id, duplicate host) while every connection sends addressed (same session / self / unknown id / id of another session), broadcast, spoofed from, spoofed session_id, malformed, incomplete and binary frames; an envelope counts when it was delivered and checked against the author's send log; distinct by (operation kind, addressee relation, from class, session_id class, phase kind), plus peer_not_found reports by (addressee relation, phase kind); some rounds create their sessions through forced join-code collisions (admission judged per connection: distinct by collision kind and how the connection joined); control-frame rounds (members send ping / pong frames, stay idle for real seconds, then exchange messages: distinct by the control frames the recipient had sent and the idle class)"
 	rounds := e.Pick(18, 48)
 	cfgs := make([]c10RoundCfg, rounds)
 	for i := range cfgs {
@@ -1524,10 +1543,18 @@ func runC10(e *Env) {
 				c.PerSession, c.Storms = 5, 3
 			}
 		}
+		// rounds 1, 7, 8, 13, 19, 20, …: sessions created through join-code collisions (c10ctl.go)
+		if i%6 == 1 || i%12 == 8 {
+			c.Collide = c10CollideKinds[(i/3)%len(c10CollideKinds)]
+		}
 		cfgs[i] = c
 	}
 	agg := c10NewAgg()
+	// control-frame rounds (ping / pong from clients, then an idle period, then traffic) run next to
+	// the ordinary rounds: their idle periods are real seconds
+	ctlDone := c10StartCtlRounds(e, r.Fork(), rounds, agg)
 	vk.ParallelDo(rounds, e.Pick(4, 6), func(i int) { c10RunRound(e, cfgs[i], agg) })
+	ctlDone()
 
 	sentTotal := 0
 	for _, v := range agg.sends {
@@ -1568,4 +1595,5 @@ func runC10(e *Env) {
 	e.R.Require(churn >= e.Pick(20, 300), fmt.Sprintf("only %d churn events", churn))
 	e.R.Require(agg.events["duplicate"] >= 3, "fewer than 3 duplicate-peer-id reconnects happened")
 	e.R.Require(agg.stableOK >= agg.rounds, "fewer settled stable phases than rounds")
+	c10CtlRequire(e)
 }
